@@ -427,6 +427,208 @@ fn run_handle(v: &Value, out: &mut Vec<String>) {
     out.push(json!({"e":"after_drop","children":alive}).to_string());
 }
 
+// ------------------------------------------------------------------ C16: builder call sequences
+fn stream_kind(e: Exec, which: &str, kind: &str) -> Exec {
+    let f = |write: bool| {
+        let p = tmpfile(&format!("b_{}_{}", which, kind));
+        if write { File::create(&p).unwrap() } else { fs::write(&p, b"").unwrap(); File::open(&p).unwrap() }
+    };
+    match (which, kind) {
+        ("stdin", "pipe") => e.stdin(Redirection::Pipe),
+        ("stdin", "null") => e.stdin(NullFile),
+        ("stdin", "file") => e.stdin(f(false)),
+        ("stdin", "merge") => e.stdin(Redirection::Merge),
+        ("stdin", d) if d.starts_with("data") => e.stdin(d.as_bytes().to_vec()),
+        ("stdout", "pipe") => e.stdout(Redirection::Pipe),
+        ("stdout", "null") => e.stdout(NullFile),
+        ("stdout", "file") => e.stdout(f(true)),
+        ("stdout", "merge") => e.stdout(Redirection::Merge),
+        ("stderr", "pipe") => e.stderr(Redirection::Pipe),
+        ("stderr", "null") => e.stderr(NullFile),
+        ("stderr", "file") => e.stderr(f(true)),
+        ("stderr", "merge") => e.stderr(Redirection::Merge),
+        (a, b) => panic!("bad stream op {} {}", a, b),
+    }
+}
+
+fn apply_op(e: Exec, op: &Value) -> Exec {
+    let a = op.as_array().unwrap();
+    let s = |i: usize| a[i].as_str().unwrap().to_string();
+    match a[0].as_str().unwrap() {
+        "arg" => e.arg(s(1)),
+        "args" => {
+            let l: Vec<String> = a[1].as_array().unwrap().iter().map(|x| x.as_str().unwrap().to_string()).collect();
+            e.args(&l)
+        }
+        "env" => e.env(s(1), s(2)),
+        "env_extend" => {
+            let l: Vec<(String, String)> = a[1].as_array().unwrap().iter()
+                .map(|kv| (kv[0].as_str().unwrap().to_string(), kv[1].as_str().unwrap().to_string())).collect();
+            e.env_extend(&l)
+        }
+        "env_remove" => e.env_remove(s(1)),
+        "env_clear" => e.env_clear(),
+        "cwd" => e.cwd(s(1)),
+        "stdin" | "stdout" | "stderr" => stream_kind(e, a[0].as_str().unwrap(), a[1].as_str().unwrap()),
+        "detached" => e.detached(),
+        x => panic!("bad op {}", x),
+    }
+}
+
+fn run_terminator(e: Exec, term: &str) -> Result<(), PopenError> {
+    match term {
+        "join" => e.join().map(|_| ()),
+        "capture" => e.capture().map(|_| ()),
+        "popen" => {
+            let mut p = e.popen()?;
+            p.stdin.take();
+            let mut sink = vec![];
+            if let Some(mut o) = p.stdout.take() {
+                let _ = o.read_to_end(&mut sink);
+            }
+            if let Some(mut o) = p.stderr.take() {
+                let _ = o.read_to_end(&mut sink);
+            }
+            p.wait().map(|_| ())
+        }
+        "stream_stdout" => {
+            let mut r = e.stream_stdout()?;
+            let mut b = vec![];
+            let _ = r.read_to_end(&mut b);
+            Ok(())
+        }
+        "stream_stderr" => {
+            let mut r = e.stream_stderr()?;
+            let mut b = vec![];
+            let _ = r.read_to_end(&mut b);
+            Ok(())
+        }
+        "stream_stdin" => {
+            let w = e.stream_stdin()?;
+            drop(w);
+            Ok(())
+        }
+        "communicate" => {
+            let mut c = e.communicate()?;
+            let _ = c.read();
+            Ok(())
+        }
+        x => panic!("bad terminator {}", x),
+    }
+}
+
+fn run_builder(v: &Value, out: &mut Vec<String>) {
+    let ops = v["ops"].as_array().unwrap();
+    let term = v["term"].as_str().unwrap();
+    let penv: Vec<Value> = std::env::vars_os().map(|(k, v)| json!([k.to_string_lossy(), v.to_string_lossy()])).collect();
+    let pcwd = std::env::current_dir().unwrap().to_string_lossy().into_owned();
+    out.push(json!({"e":"bpre","penv":penv,"pcwd":pcwd,"base_argv":[vchild(), "@exit", "0"]}).to_string());
+    unsafe { slog::LOG_EXEC_ARGS = true };
+    // the panic messages of refused calls are expected: keep them off the terminal
+    let hook = std::panic::take_hook();
+    std::panic::set_hook(Box::new(|_| {}));
+    let mut runs: Vec<(String, Exec)> = vec![];
+    let mut refused_at: i64 = -1;
+    let start = || -> Exec {
+        if v["is_shell"].as_bool().unwrap_or(false) {
+            Exec::shell(v["shell"].as_str().unwrap())
+        } else {
+            Exec::cmd(vchild()).args(&["@exit", "0"])
+        }
+    };
+    let built = catch_unwind(AssertUnwindSafe(|| {
+        let mut e = start();
+        let mut idx = 0i64;
+        let mut clones: Vec<(String, Exec)> = vec![];
+        for op in ops {
+            if op[0].as_str() == Some("clone") {
+                // the original stays as it is (and is run as such), the work goes on with the clone
+                let c = e.clone();
+                clones.push((format!("orig@{}", idx), e));
+                e = c;
+            } else {
+                let r = catch_unwind(AssertUnwindSafe(|| apply_op(e, op)));
+                match r {
+                    Ok(x) => e = x,
+                    Err(_) => return (clones, None, idx),
+                }
+            }
+            idx += 1;
+        }
+        (clones, Some(e), -1)
+    }));
+    let (clones, fin, r_at) = built.unwrap_or((vec![], None, -2));
+    refused_at = if r_at != -1 { r_at } else { refused_at };
+    runs.extend(clones);
+    if let Some(e) = fin {
+        runs.push(("final".to_string(), e));
+    }
+    // run every command obtained (clone originals with a plain join-like terminator of their own)
+    for (name, e) in runs {
+        slog::reset();
+        slog::resume();
+        let t = if name == "final" { term } else { v["orig_term"].as_str().unwrap_or("capture") };
+        let r = catch_unwind(AssertUnwindSafe(|| run_terminator(e, t)));
+        slog::stop();
+        if unsafe { slog::IN_CHILD } != 0 {
+            unsafe { simk::raw::exit_group(98) };
+        }
+        // what exec was given
+        let recs = slog::records();
+        let mut execargs: Vec<String> = vec![];
+        let mut pids = vec![];
+        for rc in &recs {
+            if rc.kind == slog::K_EXECARG {
+                if rc.a == 0 {
+                    execargs.clear(); // one exec attempt per PATH entry: keep the last one
+                }
+                execargs.push(String::from_utf8_lossy(&rc.s[..rc.slen as usize]).into_owned());
+            }
+            if rc.kind == slog::K_FORK && rc.ret > 0 {
+                pids.push(rc.ret as u32);
+            }
+        }
+        let (ok, refused, errkind) = match &r {
+            Ok(Ok(())) => (true, false, "none".to_string()),
+            Ok(Err(e)) => (false, false, err_json(e).0),
+            Err(_) => (false, true, "panic".to_string()),
+        };
+        // the child's report (argv / environ / cwd)
+        let mut rep = json!({"have":false,"argv":[],"env":[],"cwd":""});
+        for pid in &pids {
+            let p = format!("{}/{}.json", VR, pid);
+            for _ in 0..100 {
+                if let Ok(s) = fs::read_to_string(&p) {
+                    if let Ok(rj) = serde_json::from_str::<Value>(&s) {
+                        let dec = |h: &Value| String::from_utf8_lossy(&unhex(h.as_str().unwrap())).into_owned();
+                        let argv: Vec<String> = rj["argv"].as_array().unwrap().iter().map(dec).collect();
+                        let env: Vec<Value> = rj["env"].as_array().unwrap().iter().map(|h| {
+                            let kv = dec(h);
+                            match kv.find('=') {
+                                Some(i) => json!([kv[..i].to_string(), kv[i + 1..].to_string()]),
+                                None => json!([kv, ""]),
+                            }
+                        }).collect();
+                        rep = json!({"have":true,"argv":argv,"env":env,"cwd":dec(&rj["cwd"])});
+                        let _ = fs::remove_file(&p);
+                        break;
+                    }
+                }
+                if !std::path::Path::new(&format!("/proc/{}", pid)).exists() && !std::path::Path::new(&p).exists() {
+                    break;
+                }
+                std::thread::sleep(std::time::Duration::from_millis(3));
+            }
+        }
+        let at: i64 = name.strip_prefix("orig@").and_then(|x| x.parse().ok()).unwrap_or(-1);
+        out.push(json!({"e":"brun","which":if name == "final" {"final"} else {"orig"},"at":at,"term":t,"ok":ok,"refused":refused,"errkind":errkind,
+            "execargs":execargs,"report":rep}).to_string());
+    }
+    std::panic::set_hook(hook);
+    unsafe { slog::LOG_EXEC_ARGS = false };
+    out.push(json!({"e":"bresult","refused_at":refused_at}).to_string());
+}
+
 fn run_one(v: &Value, out: &mut Vec<String>) {
     let _ = fs::create_dir_all(TMPD);
     let _ = fs::create_dir_all(VR);
@@ -437,6 +639,7 @@ fn run_one(v: &Value, out: &mut Vec<String>) {
     match kind {
         "pipeline" => run_pipeline(v, out),
         "handle" => run_handle(v, out),
+        "builder" => run_builder(v, out),
         x => panic!("bad kind {}", x),
     }
     for l in watchdog_disarm() {
